@@ -10,7 +10,7 @@ PID = 'C19'
 LEVEL = 'exploration'
 VARIANTS = {'quick': ['asan', 'plain'], 'thorough': ['asan', 'plain']}
 RULE = ('generators: Mersenne Twister, default, lc_2exp (several a,c,m2exp), lc_2exp_size for every supported size (sampled in quick; unsupported '
-        'sizes must return 0); seeds 0, 1, 2^32, 2^64-1, multi-limb; range predicates on every draw of mpz_urandomb/rrandomb/urandomm, mpn_urandomb/'
+        'sizes must return 0); seeds 0, 1, 2^32, 2^64-1, multi-limb, negative (-1..-4, -2^64, multi-limb); range predicates on every draw of mpz_urandomb/rrandomb/urandomm, mpn_urandomb/'
         'urandomm/randomb/rrandom, gmp_urandomb_ui/urandomm_ui, mpf_urandomb (value in [0,1), format by the driver monitor) over bit counts 0,1,31..33,'
         '63..65,127..129,19936..19938,10^5 and moduli 1,2,3,2^k,2^k+-1, all-ones, multi-limb with top limb 1; sequence equality for two states with the '
         'same algorithm and seed and for a state and its gmp_randinit_set copy taken at an arbitrary point of a mixed request history (the original '
@@ -28,11 +28,12 @@ def gen_init(r, kind, slot):
     return ['z Z9 %s' % a, 'c gmp_randinit_lc_2exp R%d Z9 #%s #%s' % (slot, c, m)]
 
 def seed_cmds(r, slot, seed):
-    if seed < (1 << 64) and r.random() < 0.6: return ['c gmp_randseed_ui R%d #%d' % (slot, seed)]
+    if 0 <= seed < (1 << 64) and r.random() < 0.6: return ['c gmp_randseed_ui R%d #%d' % (slot, seed)]
     return ['z Z8 %s' % hx(seed), 'c gmp_randseed R%d Z8' % slot]
 
 GENS = ['mt', 'default', 'lcs:16', 'lcs:32', 'lcs:64', 'lcs:128', 'lc:5851f42d4c957f2d:1:64', 'lc:19660d:3c6ef35f:32', 'lc:2875a2e7b175:2739110:100']
 SEEDS = [0, 1, 1 << 32, M, (1 << 200) + 12345, 42]
+NEGSEEDS = [-1, -2, -3, -4, -(1 << 64), -((1 << 300) + 7)]       # gmp_randseed takes any mpz: negative seeds are reduced like the others (A52)
 BITS = [0, 1, 31, 32, 33, 63, 64, 65, 127, 128, 129, 700, 19936, 19937, 19938]
 
 LCX = [32, 64, 100, 128, 130, 156, 196, 200, 256, 300]
@@ -107,6 +108,13 @@ def specs(rng, tier, wid, nw, env):
             for rep in range(1 if q else 4):
                 k += 1
                 if k % nw == wid: yield ('battery', g, sh[0], sh[1], rng.choice(SEEDS + [rng.getrandbits(64)]), rng.getrandbits(48))
+    # negative seeds: every generator kind x one cheap battery + reproducibility
+    for g in GENS:
+        for sd in NEGSEEDS:
+            k += 1
+            if k % nw == wid:
+                yield ('battery', g, 'urandomb', 64, sd, rng.getrandbits(48))
+                yield ('repro', g, sd, rng.getrandbits(48))
     N = 400 if q else 20000
     for i in range(N):
         yield ('range', rng.choice(GENS), rng.choice(SEEDS + [rng.getrandbits(rng.choice([10, 64, 300]))]), rng.getrandbits(48))
